@@ -52,11 +52,15 @@ theorem registries_restored (cfg : Nat → Cfg) (ops : List Op) (m : Nat) (s' : 
     simp only [cbCore, cleanup, hc, if_true]
     refine ⟨?_, ?_, ?_⟩ <;> intro e he heq <;> simp only [List.mem_filter] at he
     · have h2 := he.2
-      have hcl : e.cls = .cfg := by
+      have hcl : e.cls = .cfg ∨ e.cls = .turn := by
         cases hcl : e.cls <;> simp [ownedBy, heq, hcl] at h2 ⊢
-      have := hI.cfgOwned e he.1 hcl
-      rw [heq, ha, hs] at this
-      simp at this
+      rcases hcl with hcl | hcl
+      · have := hI.cfgOwned e he.1 hcl
+        rw [heq, ha, hs] at this
+        simp at this
+      · have := hI.turnOwned e he.1 hcl
+        rw [heq, hs] at this
+        simp at this
     · have h2 := he.2
       simp [ownedBy, heq] at h2
     · have h2 := he.2
@@ -68,6 +72,15 @@ theorem stopped_leaves_cleanup_pending (st st' : St) (m : Nat) (h : step st (.st
   split at h
   · cases h
   · cases h; simp
+
+/-- The one-shot handler `ModeController._player_turn_ended` registers on `mode_<n>_started` for a game mode that is
+still starting when the player's turn ends: after ANY op sequence such a handler exists only for a mode that is (still)
+starting — it is gone as soon as the mode has started (it fires in the drain of that event and requests the stop), so
+it is never part of the registries of a mode that is active, stopping or stopped. -/
+theorem turn_end_handler_only_while_starting (cfg : Nat → Cfg) (ops : List Op) (e : Ent)
+    (he : e ∈ (run (init cfg) ops).bus) (hc : e.cls = .turn) :
+    ((run (init cfg) ops).modes e.owner).starting = true :=
+  (run_inv _ ops (inv_init cfg)).turnOwned e he hc
 
 /-- Frame: no step of mode `m` (lifecycle or user code) touches a registry entry owned by another mode. -/
 theorem others_untouched (st st' : St) (op : Op) (h : step st op = some st') :
@@ -158,11 +171,15 @@ theorem restart_starts_clean (cfg : Nat → Cfg) (ops : List Op) (m : Nat) (p : 
       simp only [List.mem_filter] at he
       have heq : e.owner = m := by simpa [ownedBy] using hm
       have h2 := he.2
-      have hcl : e.cls = .cfg := by
+      have hcl : e.cls = .cfg ∨ e.cls = .turn := by
         cases hcl : e.cls <;> simp [ownedBy, heq, hcl] at h2 ⊢
-      have := hI.cfgOwned e he.1 hcl
-      rw [heq, ha, hs] at this
-      simp at this
+      rcases hcl with hcl | hcl
+      · have := hI.cfgOwned e he.1 hcl
+        rw [heq, ha, hs] at this
+        simp at this
+      · have := hI.turnOwned e he.1 hcl
+        rw [heq, hs] at this
+        simp at this
     have h2 : ∀ c n, (mkEnts m c n).filter (ownedBy m) = mkEnts m c n := by
       intro c n
       rw [List.filter_eq_self]
@@ -190,6 +207,14 @@ example :
     (let s := run (init exCfg) [.start 1 none false true, .started 1, .startedCb 1, .stop 1, .stopped 1,
         .start 1 none false true, .stoppedCb 1, .started 1, .startedCb 1]
      ((s.modes 1).active, (s.bus.filter (fun e => e.owner == 1 && e.cls == .own)).length)) = (true, 2) := by
+  decide
+
+/-- the turn ends while mode 1 is still starting: the one-shot handler is registered, and gone once the mode has
+started; the stop it requests is an ordinary stop -/
+example :
+    (let s1 := run (init exCfg) [.start 1 none false true, .turnEnd 1, .turnEnd 1]
+     let s2 := run s1 [.started 1, .stop 1, .startedCb 1, .stopped 1, .stoppedCb 1]
+     (cnt s1.bus 1 .turn false, cnt s2.bus 1 .turn false, s2.bus.length, (s2.modes 1).active)) = (2, 0, 0, false) := by
   decide
 
 end MpfVerif.C07
